@@ -139,6 +139,8 @@ type c14Case struct {
 	whole  bool
 	cnt    *atomic.Int64
 	broken bool
+	mc     int // MaxConcurrency (0: the default of c14Options, 30)
+	mat    int // MaxActiveTransactions (0: the store's default)
 }
 
 // whole=true: FileSize applies to every log of the store (tx log, commit log, index, aht: many tiny files, slow);
@@ -231,7 +233,14 @@ func c14OptionsG(F, io int, emb bool, lg *c14Logger, whole bool, cnt *atomic.Int
 }
 
 func (c *c14Case) open() error {
-	st, err := store.Open(c.dir, c14Options(c.F, c.io, c.emb, c.lg, c.whole, c.cnt))
+	o := c14Options(c.F, c.io, c.emb, c.lg, c.whole, c.cnt)
+	if c.mc > 0 {
+		o = o.WithMaxConcurrency(c.mc)
+	}
+	if c.mat > 0 {
+		o = o.WithMaxActiveTransactions(c.mat)
+	}
+	st, err := store.Open(c.dir, o)
 	if err != nil {
 		return err
 	}
@@ -804,16 +813,30 @@ func c14StoreCase(r *hx.Result, rng *hx.Rng, thorough bool, caseNo int) error {
 	if thorough {
 		nTx = 8 + rng.Intn(50)
 	}
+	// MaxConcurrency: the default of these cases (30) or the smallest value the schedule of the case needs (+0..2): the
+	// distance in tx ids between two txs whose values are adjacent in a value log is then no longer small relative to it
+	mc := 0
+	if rng.Chance(50) {
+		mc = writers
+		if replica && mc < 5 {
+			mc = 5 // a shuffled replication window holds up to 5 pooled txs
+		}
+		if mc < 2 {
+			mc = 2 // commits between cuts use up to 2 committers
+		}
+		mc += rng.Intn(3)
+	}
 	dir := hx.TempDir("c14")
 	defer os.RemoveAll(dir)
-	c := &c14Case{r: r, label: fmt.Sprintf("store-case#%d F=%d io=%d emb=%v writers=%d replica=%v txs=%d seed=%d", caseNo, F, io, emb, writers, replica, nTx, r.Seed),
-		dir: filepath.Join(dir, "st"), F: F, io: io, emb: emb, lg: &c14Logger{}, whole: whole,
+	c := &c14Case{r: r, label: fmt.Sprintf("store-case#%d F=%d io=%d emb=%v writers=%d replica=%v txs=%d mc=%d seed=%d", caseNo, F, io, emb, writers, replica, nTx, mc, r.Seed),
+		dir: filepath.Join(dir, "st"), F: F, io: io, emb: emb, lg: &c14Logger{}, whole: whole, mc: mc,
 		specs: map[uint64]*c14Spec{}, locs: map[uint64][]c14Loc{}, hdrs: map[uint64]*store.TxHeader{}, alhs: map[uint64][32]byte{},
 		ents: map[uint64]string{}, duals: map[[2]uint64]*store.DualProof{}}
 	r.Count(fmt.Sprintf("config.F=%d", F))
 	r.Count(fmt.Sprintf("config.io=%d", io))
 	r.Count(fmt.Sprintf("config.embedded=%v", emb))
 	r.Count(fmt.Sprintf("config.writers=%d", writers))
+	r.Count(fmt.Sprintf("config.store-case.MaxConcurrency=%d", mc))
 	r.Count(fmt.Sprintf("config.filesize-applies-to-whole-store=%v", whole))
 	r.Count(fmt.Sprintf("config.written-through-ReplicateTx-shuffled=%v", replica))
 	if replica {
